@@ -9,12 +9,15 @@
          field placement, domain-valid rule, LPAE bit); CheckDomain table; CheckPermission AP
          table (VMSA); FCSE translation; MMU-off flat map.
   C15-V  TranslateAddressV composition: which walk is used, which checks run, in which order.
+  C15-W  long-descriptor stage-1 walk interpreted whole per (T0SZ, T1SZ): base selection, descriptor address at every
+         level, translation / access-flag faults and their level, block / page output address, hierarchical attribute
+         bits (NSTable, APTable, XNTable, PXNTable), result record fields - against a reference of TranslationTableWalkLD.
   C15-L  long-descriptor walk: the level loop continues on table descriptors and stops on
          block / page descriptors (repeat ... until lookup_finished).
 """
 import ast
 
-from .. import refmodel, spec as specmod
+from .. import decode, refmodel, spec as specmod
 from ..bitdom import Int, V, Value, Tup, UF, NONE, Outcome
 from ..machine import Machine, describe_witness
 from ..report import Run, AnalysisError
@@ -818,6 +821,223 @@ def check_ld_hierarchical(run, repo):
     run.floor('hierarchical attribute updates in the LD walk', n, 1)
 
 
+def check_ld_walk(run, repo, sizes):
+    """C15-W  long-descriptor stage-1 walk (PL1&0 regime), interpreted whole - base selection, the level loop (unrolled),
+    and the result record - once per (T0SZ, T1SZ) pair, the pair fixed through the path condition so that every slice position
+    is a constant; input address, TTBR0/TTBR1, EPD0/EPD1, security state and up to three 64-bit descriptors stay symbolic.
+    Compared with a reference written from TranslationTableWalkLD (ARM ARM B3.19): which TTBR and start level, the descriptor
+    address at every level, the translation / access-flag faults with their level, the output address of a level-1/2 block or
+    level-3 page, the hierarchical attribute bits, and the permission / nG / NS / level / block-size fields."""
+    fi = repo.method('ArmV6', 'translation_table_walk_ld')
+    fn = fi.qualname
+    nob = 0
+    ok_all = True
+    for t0, t1 in sizes:
+        w = Walk(repo)
+        B, it, rm, m = w.B, w.it, w.rm, w.m
+        ttbcr = rm.view('ttbcr')
+        sctlr = rm.view('sctlr')
+        ia = m.sym('ARG.ia', 32)
+        D = [None, m.sym('DESC1', 64), m.sym('DESC2', 64), m.sym('DESC3', 64)]
+        wr = m.sym('ARG.is_write', 1)
+        s2 = m.sym('ARG.s2fs1walk', 1)
+        tt0 = m.reg_attr('ttbr0_64', 64)
+        tt1 = m.reg_attr('ttbr1_64', 64)
+        dom = B.all_and([it.i_eq(Int(ttbcr.bits[0:3]), it.const(t0)), it.i_eq(Int(ttbcr.bits[16:19]), it.const(t1)),
+                         B.NOT(rm.cfg('have_virt_ext')), rm.valid_state(), B.NOT(sctlr.bits[25]), decode.arch_constraint(it)])
+        res, _ = m.run('ArmV6', 'translation_table_walk_ld', [ia, ia, wr, it.const(1), s2, it.const(4)], cond=dom)
+        label = 'T0SZ=%d T1SZ=%d' % (t0, t1)
+        ok = True
+
+        def bad(construct, msg, wit=None, _label=label):
+            nonlocal ok
+            ok = False
+            run.violation('C15-W', fi.relpath, fn, construct, '%s (%s)' % (msg, _label),
+                          {'witness': describe_witness(B, B.pick(wit), ('ARG.ia', 'DESC1', 'DESC2', 'DESC3'))
+                           if wit not in (None, 0) else None})
+        cat = lambda *parts: Int([b for p in parts for b in p])
+        zeros = lambda n: [0] * n
+        secure = rm.is_secure(rm.cpsr())
+        # ---- reference: base selection ----------------------------------------------------------
+        top0 = B.all_and([B.NOT(b) for b in ia.bits[32 - t0:32]]) if t0 else 1
+        use0 = 1 if t0 == 0 else top0
+        if t1 == 0:
+            use1 = B.NOT(use0)
+        else:
+            use1 = B.all_and(list(ia.bits[32 - t1:32]))
+        found = B.OR(use0, use1)
+        epd = B.ite(use1, ttbcr.bits[23], ttbcr.bits[7])
+
+        def start(tsz, ttbr):
+            lvl = 1 if tsz < 2 else 2
+            x = 9 * lvl - tsz - 4
+            base = cat(zeros(x), ttbr.bits[x:40])
+            lo = 39 - 9 * lvl
+            sel = cat(zeros(3), ia.bits[lo:32 - tsz])
+            return lvl, Int(it.ext(it.i_bitop('or', base, sel), 40))
+        l0, a0 = start(t0, tt0)
+        l1, a1 = start(t1, tt1)
+        nofault0 = B.AND(found, B.NOT(epd))
+        # the two start levels may differ: build per-selection references and merge with ite(use1, ...)
+        refs = {}
+        for which, lvl, addr in (('1', l1, a1), ('0', l0, a0)):
+            sel = B.AND(dom, B.AND(nofault0, use1 if which == '1' else B.AND(use0, B.NOT(use1))))
+            ls, rw, us, pxn, xn = secure, 1, 1, 0, 0
+            live = sel
+            k = 1
+            L = lvl
+            steps = []
+            while L <= 3:
+                d = D[k]
+                valid, b1 = d.bits[0], d.bits[1]
+                fault = B.AND(live, B.OR(B.NOT(valid), B.AND(B.NOT(b1), 1 if L == 3 else 0)))
+                table = B.all_and([live, valid, b1]) if L < 3 else 0
+                block = B.all_and([live, valid, b1 if L == 3 else B.NOT(b1)])
+                n = 39 - 9 * L
+                out = cat(ia.bits[0:n], d.bits[n:40])
+                at = list(d.bits[2:12]) + list(d.bits[52:55])
+                nls = B.NOT(ls)
+                at[12] = B.OR(at[12], xn)
+                at[11] = B.OR(at[11], pxn)
+                at[9] = B.OR(at[9], B.AND(secure, nls))
+                at[5] = B.OR(at[5], B.NOT(rw))
+                at[4] = B.AND(at[4], us)
+                at[3] = B.OR(at[3], nls)
+                steps.append({'k': k, 'L': L, 'live': live, 'addr': addr, 'fault': fault, 'block': block, 'out': out, 'attrs': at})
+                # next level
+                addr = Int(it.ext(cat(zeros(3), ia.bits[39 - 9 * (L + 1):48 - 9 * (L + 1)] if L < 3 else [], zeros(0)), 40)) if False else None
+                if L < 3:
+                    nl = L + 1
+                    addr = cat(zeros(3), ia.bits[39 - 9 * nl:48 - 9 * nl], d.bits[12:40])
+                    ls = B.AND(ls, B.NOT(d.bits[63]))
+                    rw = B.AND(rw, B.NOT(d.bits[62]))
+                    us = B.AND(us, B.NOT(d.bits[61]))
+                    pxn = B.OR(pxn, d.bits[59])
+                    xn = B.OR(xn, d.bits[60])
+                live = table
+                L += 1
+                k += 1
+            refs[which] = steps
+        all_steps = refs['1'] + refs['0']
+        # ---- faults ----------------------------------------------------------------------------------
+        ref_tr = {1: B.AND(dom, B.NOT(nofault0)), 2: 0, 3: 0}
+        ref_af = {1: 0, 2: 0, 3: 0}
+        for stp in all_steps:
+            ref_tr[stp['L']] = B.OR(ref_tr[stp['L']], stp['fault'])
+            ref_af[stp['L']] = B.OR(ref_af[stp['L']], B.AND(stp['block'], B.NOT(stp['attrs'][8])))
+        for kind, ref in (('TRANSLATION', ref_tr), ('ACCESS_FLAG', ref_af)):
+            got_all = 0
+            for c, a in w.aborts:
+                cc = B.AND(c, dom)
+                if cc == 0 or a[5].single() != ('enum', 'DAbort', kind):
+                    continue
+                got_all = B.OR(got_all, cc)
+                for L in (1, 2, 3):
+                    reg = B.AND(cc, ref[L])
+                    if reg != 0:
+                        nob += 1
+                        r = specmod.diff_values(it, reg, a[3], V(it.const(L)), 'level')
+                        if r is not None:
+                            bad('%s fault level' % kind.lower(), 'the fault is reported for the wrong lookup level: %s' % r[0], r[1])
+                for idx, what, want in ((0, 'faulting address', V(ia)), (9, 'LDFSR format', None), (7, 'second-stage flag', None)):
+                    nob += 1
+                    if want is not None:
+                        r = specmod.diff_values(it, cc, a[idx], want, what)
+                        if r is not None:
+                            bad('%s fault %s' % (kind.lower(), what), 'the fault carries a different %s: %s' % (what, r[0]), r[1])
+                    else:
+                        try:
+                            tv = it.truth(a[idx], cc)
+                        except Exception:
+                            tv = None
+                        exp = 1 if idx == 9 else 0
+                        if tv is None or B.AND(cc, B.XOR(tv, exp)) != 0:
+                            bad('%s fault %s' % (kind.lower(), what), 'a stage-1 long-descriptor fault must be reported in the '
+                                'LPAE format and as a first-stage abort')
+            want_all = B.all_or(ref.values())
+            nob += 1
+            dd = B.AND(dom, B.XOR(got_all, want_all))
+            if dd != 0:
+                bad('%s faults' % kind.lower().replace('_', ' '),
+                    'the set of (address, TTBCR, descriptors) states that take a %s fault differs from the architecture (tree %s)'
+                    % (kind.lower().replace('_', ' '), 'faults where the reference does not' if B.AND(dd, got_all) != 0
+                       else 'does not fault where the reference does'), dd)
+        kinds = {a[5].single()[2] for c, a in w.aborts if B.AND(c, dom) != 0}
+        if kinds - {'TRANSLATION', 'ACCESS_FLAG'}:
+            bad('abort kinds', 'the long-descriptor walk raises unexpected abort types %s' % sorted(kinds))
+        # ---- descriptor reads -----------------------------------------------------------------------
+        for k in (1, 2, 3):
+            mine = [stp for stp in all_steps if stp['k'] == k]
+            live = B.all_or(stp['live'] for stp in mine)
+            if k > len(w.reads):
+                if live != 0:
+                    bad('descriptor read %d' % k, 'no level-%d-deep descriptor read although the walk continues' % k, live)
+                continue
+            c, pa, size, _ = w.reads[k - 1]
+            nob += 2
+            if size != 8:
+                bad('descriptor size', 'long descriptors must be read as 64-bit doublewords')
+            dd = B.AND(dom, B.XOR(B.AND(c, dom), live))
+            if dd != 0:
+                bad('descriptor read %d' % k, 'descriptor %d is read in states where the architecture does not read it, or the '
+                    'reverse (disabled walk, fault or block at an earlier level)' % k, dd)
+            for stp in mine:
+                reg = B.AND(stp['live'], c)
+                if reg == 0:
+                    continue
+                r = specmod.diff_values(it, reg, pa, V(Int(it.ext(stp['addr'], 40))), 'descriptor address') if pa is not None \
+                    else ('no address', reg)
+                if r is not None:
+                    bad('level-%d descriptor address' % stp['L'],
+                        'the descriptor address is not %s: %s' % (
+                            'TTBR[39:x]:IA[31-TxSZ:%d]:000 (x = 9*level - TxSZ - 4)' % (39 - 9 * stp['L']) if stp['k'] == 1 else
+                            'Descriptor[39:12]:IA[%d:%d]:000' % (47 - 9 * stp['L'], 39 - 9 * stp['L']), r[0]), r[1])
+        # ---- result record -----------------------------------------------------------------------------
+        done = 0
+        for stp in all_steps:
+            fin = B.AND(stp['block'], stp['attrs'][8])
+            done = B.OR(done, fin)
+            if fin == 0:
+                continue
+            at, L = stp['attrs'], stp['L']
+            want = {'addrdesc.paddress.physicaladdress': Int(it.ext(stp['out'], 40)), 'perms.xn': Int([at[12]]),
+                    'perms.pxn': Int([at[11]]), 'contiguousbit': Int([at[10]]), 'ng': Int([at[9]]),
+                    'perms.ap': Int([1, at[4], at[5]]), 'level': it.const(L), 'blocksize': it.const((512 ** (3 - L)) * 4),
+                    'addrdesc.paddress.ns': Int([at[3]]), 'domain': it.const(0)}
+            for c, v, st_ in res.rets:
+                obj = v.single()
+                cc = B.AND(c, fin)
+                if cc == 0 or not (isinstance(obj, tuple) and obj[0] == 'obj'):
+                    continue
+                for path, ref in want.items():
+                    got = w.field(st_.heap, obj, path)
+                    nob += 1
+                    if got is None:
+                        bad('record field ' + path, 'the walk does not set %s' % path)
+                        continue
+                    r = specmod.diff_values(it, cc, got, V(ref), path)
+                    if r is not None:
+                        bad('record field %s (level %d)' % (path, L),
+                            'the translation result field %s differs from the long-descriptor format: %s' % (path, r[0]), r[1])
+        nob += 1
+        if B.AND(done, B.NOT(res.returned)) != 0:
+            bad('completion', 'the walk does not return a record for some valid block / page descriptor', B.AND(done, B.NOT(res.returned)))
+        if B.AND(B.AND(dom, res.returned), B.NOT(done)) != 0:
+            bad('completion', 'the walk returns a record in a state where the architecture takes a fault',
+                B.AND(B.AND(dom, res.returned), B.NOT(done)))
+        for o in it.outcomes:
+            if o.kind in ('hosterror', 'unbound', 'assert_fail') and B.AND(o.cond, dom) != 0:
+                bad(norm_stmt(o.node, 90), 'host error reachable in the long-descriptor walk: %s %s' % (o.kind, o.payload),
+                    B.AND(o.cond, dom))
+        ok_all = ok_all and ok
+        run.instance('C15-W', 'translation_table_walk_ld ' + label, obligations=1, ok=ok,
+                     sample={'function': fn, 'sizes': label, 'descriptor_reads': len(w.reads), 'aborts': len(w.aborts),
+                             'bdd_nodes': B.size(),
+                             'inputs': 'IA x TTBR0/1 x EPD0/1 x security state x three 64-bit descriptors'})
+    run.extra.setdefault('ld_walk', {})['field_comparisons'] = nob
+    return ok_all
+
+
 def main(repo_path, tier, seed, replay=None):
     run = Run('C15', tier, level='other', seed=seed)
     repo = Repo(repo_path)
@@ -836,6 +1056,24 @@ def main(repo_path, tier, seed, replay=None):
     check_ld_base_select(run, repo)
     check_ld_hierarchical(run, repo)
     check_ld_descriptor_dispatch(run, repo)
+    LD_QUICK = ((0, 0), (1, 0), (0, 1), (2, 3), (7, 7), (0, 5), (4, 1))
+    LD_ALL = tuple((a, b) for a in range(8) for b in range(8))
+    check_ld_walk(run, repo, LD_ALL if tier == 'thorough' else LD_QUICK)
+    # positive control for the long-descriptor rule: the level-2 block output slice moved by a bit (in memory)
+    fl = repo.method('ArmV6', 'translation_table_walk_ld')
+    srcl = fl.module.source
+    oldl = 'ia_length = 39 - offset'
+    firedl, whatl = False, ''
+    if oldl in srcl:
+        mrepo = Repo(repo_path, overrides={fl.module.relpath: srcl.replace(oldl, 'ia_length = 38 - offset', 1)})
+        tmp = Run('C15')
+        try:
+            check_ld_walk(tmp, mrepo, ((0, 0),))
+            firedl = bool(tmp.findings)
+        except AnalysisError:
+            firedl = True
+        whatl = 'block output boundary 39 - 9*level -> 38 - 9*level'
+    run.control('C15-W output address boundary moved', firedl, whatl)
     # positive control: one descriptor slice moved by a bit (in memory)
     fi = repo.method('ArmV6', 'translation_table_walk_sd')
     src = fi.module.source
@@ -853,7 +1091,7 @@ def main(repo_path, tier, seed, replay=None):
         what = 'section base slice l1desc[31:20] -> [31:21]'
     run.control('C15-S descriptor slice moved', fired, what)
     run.exhaustive = True
-    run.undecided = ['long-descriptor walk beyond the loop polarity and the TTBR0/TTBR1 base-selection symmetry (descriptor wiring per level, attribute inheritance)',
+    run.undecided = ['long-descriptor walk: Hyp-mode (HTTBR) and stage-2 (VTTBR) regimes, and the walk-attribute fields of the descriptor fetch (IRGN/ORGN/SH); the stage-1 PL1&0 walk is decided by C15-W',
                      'memory attribute decoding (TEX remap / MAIR) beyond the bits handed to it', 'stage-2 translation',
                      'big-endian (SCTLR.EE) descriptor fetch is compared in the EE = 0 world only']
     run.assumptions = ['reference: TranslationTableWalkSD, CheckDomain, EncodeSDFSR/LDFSR, DataAbort, FCSETranslate, '
@@ -863,5 +1101,7 @@ def main(repo_path, tier, seed, replay=None):
         'compared with the reference format (descriptor addresses for N = 0..7, type decision table, fault type/level/domain, '
         'resulting PA / domain / AP / XN / PXN / nG / NS / level / block size, attribute bits). Fault-status encodings, the VMSA '
         'arm of DataAbort, CheckDomain, FCSE, the MMU-off flat map and the dispatch inside TranslateAddressV are exact tables. '
-        'The long-descriptor walk is judged on its loop structure and on the TTBR0/TTBR1 base-selection arms (field families, sibling agreement).',
+        'The stage-1 long-descriptor walk is interpreted whole per (T0SZ, T1SZ) pair with the address, TTBRs, EPDs, security state '
+        'and three 64-bit descriptors symbolic (C15-W: base selection, descriptor address per level, fault level, block / page '
+        'output address, hierarchical attribute bits, result fields), on top of the structural loop / sibling-arm rules.',
         './check C15 --tier %s' % tier)
